@@ -411,8 +411,7 @@ Proof.
   intros H.
   evar_last. apply (is_derive_comp fp (fun r => r * h) t (dfp (t * h)) h).
   - apply H.
-  - evar_last. apply (is_derive_scal_l (fun r : R => r) t h 1). apply (is_derive_id t).
-    unfold scal; simpl; unfold mult; simpl. ring.
+  - auto_derive; [exact I|ring].
   - unfold scal; simpl; unfold mult; simpl. ring.
 Qed.
 
@@ -443,4 +442,42 @@ Proof.
                <= L2p * (h * h) / 2 * zc n).
   { apply (forward_daun1_C2 n f df); try assumption. intros s Hs. unfold f. apply Hz. nra. }
   unfold f in HB at 1. pose proof (zc_nonneg n). nra.
+Qed.
+
+(* onion peeling (abel/dasch.py: D = inv(W), result_k = sum_i D[k][i] data_i) *)
+Theorem inverse_onion_peeling_error_partial (n : nat) (f : R -> R) (L : R) (D : nat -> nat -> R) :
+  0 <= L -> lipschitz_nonneg f L -> (forall s, zc n - 1 / 2 <= s -> f s = 0) ->
+  (forall k j, (k < n)%nat -> (j < n)%nat ->
+     sumn n (fun i => D k i * onion_W (Z.of_nat n) (Z.of_nat i) (Z.of_nat j)) = delta j k) ->
+  forall k, (k < n)%nat ->
+    Rabs (sumn n (fun i => D k i * Abel f (zc n) (zc i)) - f (zc k))
+      <= L * zc n * sumn n (fun i => Rabs (D k i)).
+Proof.
+  intros HL Hf Hz HD k Hk.
+  rewrite (sumn_ext n _ (fun i => Abel f (zc n) (zc i) * D k i)) by (intros; ring).
+  apply (inverse_daun0_error_partial n f L (fun i k => D k i)); try assumption.
+  intros j k' Hj Hk'. rewrite <- (HD k' j Hk' Hj). apply sumn_ext. intros i Hi.
+  rewrite onion_W_eq_daun0 by lia. ring.
+Qed.
+
+(* ---- the hypotheses are satisfiable ------------------------------------------ *)
+Definition tent (r : R) : R := Rmax 0 (1 - r).
+
+Lemma tent_lipschitz : lipschitz_nonneg tent 1.
+Proof.
+  intros r s _ _. unfold tent, Rmax.
+  pose proof (Rle_abs (r - s)). pose proof (Rabs_maj2 (r - s)).
+  destruct (Rle_dec 0 (1 - r)); destruct (Rle_dec 0 (1 - s)); apply Rabs_le; lra.
+Qed.
+
+Lemma tent_support : forall s, zc 2 - 1 / 2 <= s -> tent s = 0.
+Proof.
+  intros s Hs. unfold zc in Hs. simpl in Hs. unfold tent, Rmax. destruct (Rle_dec 0 (1 - s)); lra.
+Qed.
+
+Lemma zero_C2 : (forall t : R, is_derive (fun _ : R => 0) t ((fun _ => 0) t)) /\ lipschitz_all (fun _ => 0) 0.
+Proof.
+  split.
+  - intros t. auto_derive; [exact I|ring].
+  - intros r s. rewrite Rminus_diag_eq by reflexivity. rewrite Rabs_R0. lra.
 Qed.
